@@ -85,6 +85,18 @@ def judgeGateway (prop : String) (st : DState) (fields : List String) (impl : Op
                decide (gw.lastRotation ≤ st.world.now) && (isOp || (latest && delayOk))
             then "VIOLATION:legitimate-rotation-refused" else "ok"
         | _, _ => if implOk impl then "VIOLATION:undecodable-rotation-accepted" else "ok"
+      | "C03", "upgradeContract", _code :: _md :: _op :: sets =>
+        -- the owner's upgrade registers signer sets without a proof, but under the same rules: every set
+        -- well-formed, none registered before (nor twice in the list)
+        if !implOk impl then "ok" else
+        match sets.mapM (Codec.top decSigners) with
+        | none => "VIOLATION:undecodable-signer-set-registered-by-upgrade"
+        | some wss =>
+          if wss.any (fun ws => !wfSigners ws) then "VIOLATION:ill-formed-signer-set-registered"
+          else if wss.any (fun ws => gw.epochByHash (signersHash C ws) != 0) ||
+                  !(wss.map (signersHash C)).Nodup then "VIOLATION:duplicate-signer-set-registered"
+          else if src != st.world.owner dst then "VIOLATION:upgrade-by-other-than-the-owner"
+          else "ok"
       | "C03", "approveMessages", [_m, p] =>
         match Codec.top decProof p with
         | some proof =>
@@ -95,6 +107,18 @@ def judgeGateway (prop : String) (st : DState) (fields : List String) (impl : Op
           "VIOLATION:operatorship-changed-by-stranger" else "ok"
       | _, _, _ => "ok"
     | _, _, _ => "ok"
+  | ["deploy", "gateway", _owner, _addr, args] =>
+    -- deployment registers the initial signer sets under the same rules
+    if prop != "C03" || !implOk impl then "ok" else
+    match parseArgs args with
+    | some (_ret :: _dom :: _delay :: _op :: sets) =>
+      match sets.mapM (Codec.top decSigners) with
+      | none => "VIOLATION:undecodable-signer-set-registered-at-deployment"
+      | some wss =>
+        if wss.any (fun ws => !wfSigners ws) then "VIOLATION:ill-formed-signer-set-registered"
+        else if !(wss.map (signersHash C)).Nodup then "VIOLATION:duplicate-signer-set-registered"
+        else "ok"
+    | _ => "ok"
   | ["query", dst, func, args] =>
     match ofHex dst, parseArgs args with
     | some dst, some args =>
@@ -273,7 +297,10 @@ def judgeGov (prop : String) (st : DState) (fields : List String) (impl : Option
         if !modelOk then "VIOLATION:operator-changed-by-stranger" else "ok"
       | "C12", "withdraw", _ =>
         if !modelOk then "VIOLATION:funds-withdrawn-by-other-than-contract" else "ok"
-      | "C16", "withdrawRefundToken", _ => "ok"
+      | "C16", "withdrawRefundToken", _ =>
+        -- an accepted withdrawal pays the caller's WHOLE credit (the model refuses exactly when the contract cannot
+        -- pay it in full: then nothing may be paid and the credit stays)
+        if !modelOk then "VIOLATION:refund-withdrawal-accepted-without-paying-the-credit-in-full" else "ok"
       | _, _, _ => "ok"
     | _, _ => "ok"
   | ["query", dst, func, _args] =>
@@ -398,6 +425,8 @@ def judgeIts (prop : String) (st : DState) (fields : List String) (impl : Option
         (if func == "pause" || func == "unpause" || func == "setTrustedAddress" || func == "removeTrustedAddress"
          then "VIOLATION:owner-only-operation-accepted-from-other-caller"
          else if func == "setFlowLimits" then "VIOLATION:flow-limit-set-without-operator-role"
+         else if func == "acceptOperatorship" || func == "transferOperatorship" || func == "proposeOperatorship" then
+           "VIOLATION:operator-role-obtained-outside-the-hand-over-rules"
          else "ok")
       else if prop == "C13" && implOk impl then
         (if func == "execute" then
@@ -417,6 +446,10 @@ def judgeIts (prop : String) (st : DState) (fields : List String) (impl : Option
           | some (c, a, _) =>
             if calls.all (fun e => e.topics.getD 1 [] == c && e.topics.getD 2 [] == a) && calls.length == 1 then "ok"
             else "VIOLATION:outbound-message-not-sent-to-trusted-peer")
+      else if prop == "C19" && func == "revokeDeployRemoteInterchainToken" && !implOk impl && modelOk then
+        -- "can be revoked by its author": the rules let every caller clear the entry under his own key, whatever
+        -- happened to the chain or to the minter role since
+        "VIOLATION:revocation-by-its-author-refused"
       else if implOk impl && !modelOk then
         match prop with
         | "C04" => "VIOLATION:inbound-execute-accepted-outside-approved-trusted-once-rules"
